@@ -309,7 +309,17 @@ def impl_main(line):
     return parts[0], direct
 
 
-def evaluate(cases, impl_lines, model_lines):
+def spec_differs(impl, spec, wc):
+    """IMPL vs SPEC; with a wildcard rule {"sep":";","token":"*"} the SPEC may leave positions open"""
+    if not wc:
+        return impl != spec
+    a, b = impl.split(wc['sep']), spec.split(wc['sep'])
+    if len(a) != len(b):
+        return True
+    return any(y != wc['token'] and x != y for x, y in zip(a, b))
+
+
+def evaluate(cases, impl_lines, model_lines, wc=None):
     corr_bad, spec_viol, direct = [], [], []
     known_hits = 0
     for i, c in enumerate(cases):
@@ -319,7 +329,7 @@ def evaluate(cases, impl_lines, model_lines):
             direct.append((i, d))
         if impl != model:
             corr_bad.append(i)
-        if spec != '-' and impl != spec:
+        if spec != '-' and spec_differs(impl, spec, wc):
             if known and impl == model:
                 known_hits += 1
             else:
@@ -437,7 +447,7 @@ def main(argv):
         impl_lines = run_sharded([hbin, 'run'], cases, shards=prop.get('impl_shards', 1), timeout=prop.get('run_timeout', 3000), env=env)
         if drv:
             raw_model_lines, model_lines = run_model(prop, hbin, drv, cases)
-            corr_bad, spec_viol, direct, known_hits = evaluate(cases, impl_lines, model_lines)
+            corr_bad, spec_viol, direct, known_hits = evaluate(cases, impl_lines, model_lines, prop.get('spec_wildcard'))
             if corr_bad:
                 i = min(corr_bad, key=lambda j: len(cases[j]))
                 broken.append('correspondence MODEL vs IMPL: %d of %d cases differ; shortest: case=%r impl=%r model=%r'
@@ -494,7 +504,7 @@ def main(argv):
                 cs = [l for l in gen_out.split('\n') if l]
                 il = run_sharded([hbin, 'run'], cs, shards=prop.get('impl_shards', 1))
                 _, ml = run_model(prop, hbin, drv, cs)
-                cb, sv, dr, _ = evaluate(cs, il, ml)
+                cb, sv, dr, _ = evaluate(cs, il, ml, prop.get('spec_wildcard'))
                 if dr:
                     found = (cs[dr[0][0]], il[dr[0][0]], ml[dr[0][0]]); break
                 if sv:
